@@ -29,6 +29,18 @@ def _run_huge(exes, sd):
     return r
 
 
+def _run_huge1(exes, sd):
+    """quick tier: one request of 2^32 + small bytes through fastrandombytes and one straight into the assembly
+    (black-box build; about 4.1 GiB of memory, ~20 s beside the ordinary streams)"""
+    r = cl.StreamResult()
+    for (name, b), exe in sorted(exes.items()):
+        if b == "plain":
+            cl.run_stream(r, "salsa/%s/huge1/seed%s" % (LABEL[b], sd), exe, timeout=1200,
+                          env={"VERIF_SEED": str(sd), "VERIF_SALSA_PART": "huge1"},
+                          trivial=lambda lhs: lhs.split(" ", 1)[0] in ("vector", "jobend", "hugeskip"))
+    return r
+
+
 def _run(ctx, res, seeds, tier=None, huge=False):
     import threading
     exes, errs = cl.build_harnesses(SPECS)
@@ -38,7 +50,8 @@ def _run(ctx, res, seeds, tier=None, huge=False):
     ht = None
     if huge and exes:
         # runs beside the ordinary streams (which are single-threaded pipelines harness -> driver)
-        ht = threading.Thread(target=lambda: hres.append(_run_huge(exes, seeds[0])))
+        fn = _run_huge1 if huge == "one" else _run_huge
+        ht = threading.Thread(target=lambda: hres.append(fn(exes, seeds[0])))
         ht.start()
     try:
         _run_std(ctx, res, exes, seeds, tier)
@@ -84,7 +97,7 @@ def _interleave(fails):
 def streams(ctx, res):
     sd = ctx["seed"]
     seeds = [sd, sd + 100] if ctx["tier"] == "quick" else [sd, sd + 100, sd + 200, sd + 300]
-    cov = _run(ctx, res, seeds, huge=(ctx["tier"] != "quick"))
+    cov = _run(ctx, res, seeds, huge=(True if ctx["tier"] != "quick" else "one"))
     res.specfail[:] = _interleave(res.specfail)
     return cov
 
